@@ -12,7 +12,7 @@ from common import bits2float, float2bits
 logging.disable(logging.WARNING)
 
 PROP = "EXTRA"
-PROPS_FILES = ["Pms/Props/Extra.lean", "Pms/Props/Filon.lean", "Pms/Props/WaveX.lean"]
+PROPS_FILES = ["Pms/Props/Extra.lean", "Pms/Props/Filon.lean", "Pms/Props/WaveX.lean", "Pms/Props/Pack.lean"]
 GENERATORS = ["extra", "filon", "wavex"]
 RULE = ("random decimal-grid arguments: 2-D line pairs (non-parallel, |D| ≥ 1e-3), triangles from random 2-D/3-D vertices in an open box, "
         "x ∈ [−1, 1]; each evaluation compares the regenerated Lean term (Float) with the real function and checks the theorem's statement on "
@@ -111,7 +111,8 @@ def correspond(run):
             pf.append(({"kind": "inertia", "X": X.tolist(), "m": m_}, "moment_of_inertia differs from m/N Σ (r² δ_ij − x_i x_j) or from the order [xx, yy, zz, xy, xz, yz]"))
     filon_part(run, tdis, pf)
     wavex_part(run, tdis, pf)
-    run.coverage["programs"] = 9
+    pack_part(run, tdis, pf)
+    run.coverage["programs"] = 10
     run.coverage["disagreements_checked"] = len(tdis)
     broken = []
     if tdis:
@@ -264,6 +265,144 @@ def wavex_part(run, tdis, pf):
                 pf.append((case, f"continuousvector({k}, {n}, {pos}): returned rows are not exactly the non-zero integer vectors of [−{h}, {h})^{k}"
                                  f"{' without negative components' if pos else ''} in loop order: {len(rows)} rows for {len(want)}; "
                                  f"unexpected {sorted(set(rows) - set(want))[:4]}, missing {sorted(set(want) - set(rows))[:4]}"))
+
+
+def pack_part(run, tdis, pf):
+    """packing_capability_2d: the real routine (neighbour file read through read_neighbors, minimum image through remove_pbc,
+    reference angles through triangle_angle) against the driver's composition of the models (exact ℚ geometry, Float angles) and
+    against a brute-force evaluation of the definition; plus the theorems' statements on the real output: ≥ 0, unchanged when the
+    order inside a neighbour row changes (symmetric σ), exactly 0 for touching-disc triangles."""
+    import os, shutil, tempfile
+    from fractions import Fraction
+    from PyMatterSim.reader.reader_utils import SingleSnapshot, Snapshots
+    from PyMatterSim.static.geometric import packing_capability_2d
+    rng = run.rng
+    cases = []
+    for _ in range(40 if run.tier == "quick" else 600):
+        N = rng.randint(4, 12)
+        K = rng.choice([1, 2, 3])
+        lx, ly = common.dec(rng, 3, 6, 2), common.dec(rng, 3, 6, 2)
+        xy = common.dec(rng, -1.5, 1.5, 2) if rng.random() < 0.5 else "0"
+        H = [[lx, "0"], [xy, ly]]
+        ppp = rng.choice([[1, 1], [1, 1], [1, 0], [0, 1], [0, 0]])
+        sig = [[None] * K for _ in range(K)]
+        for a in range(K):
+            for b in range(a, K):
+                sig[a][b] = sig[b][a] = common.dec(rng, 0.9, 1.3, 2)
+        types = [rng.randint(1, K) for _ in range(N)]
+        types[rng.randrange(N)] = K                       # the routine asserts that the largest label equals the size of σ
+        pos = [[common.dec(rng, 0, 6, 3), common.dec(rng, 0, 6, 3)] for _ in range(N)]
+        rows = []
+        for i in range(N):
+            others = [j for j in range(N) if j != i]
+            rng.shuffle(others)
+            rows.append(others[:rng.randint(0, min(6, N - 1))])
+        if rng.random() < 0.6:                            # make many pairs mutual, otherwise most terms vanish
+            for i in range(N):
+                for j in rows[i]:
+                    if i not in rows[j] and len(rows[j]) < 8:
+                        rows[j].append(i)
+        cases.append({"kind": "packing", "N": N, "K": K, "H": H, "ppp": ppp, "sig": sig, "types": types, "pos": pos, "rows": rows})
+    # touching discs: an equilateral-ish cluster whose every mutual triangle has exactly the reference side lengths (one species)
+    for s_ in ("1", "1.25", "0.5"):
+        a = float(s_)
+        P = [[3.0, 3.0]] + [[3.0 + a * math.cos(k * math.pi / 3), 3.0 + a * math.sin(k * math.pi / 3)] for k in range(6)]
+        rows = [[1, 2, 3, 4, 5, 6]] + [[0, 1 + (k % 6), 1 + ((k - 2) % 6)] for k in range(1, 7)]
+        cases.append({"kind": "packing", "N": 7, "K": 1, "H": [["20", "0"], ["0", "20"]], "ppp": [0, 0], "sig": [[s_]], "types": [1] * 7,
+                      "pos": [[repr(x), repr(y)] for x, y in P], "rows": rows, "ideal": True})
+
+    def real(c, rows):
+        tmp = tempfile.mkdtemp(prefix="extrapack")
+        try:
+            nf = os.path.join(tmp, "nb.dat")
+            with open(nf, "w") as f:
+                f.write("id     cn     neighborlist\n")
+                for i, r in enumerate(rows):
+                    f.write("{} {} {}\n".format(i + 1, len(r), " ".join(str(j + 1) for j in r)))
+            Hf = np.array([[float(x) for x in r] for r in c["H"]])
+            L = np.array([Hf[0, 0], Hf[1, 1]])
+            snap = SingleSnapshot(0, c["N"], np.array(c["types"], dtype=int), np.array([[float(x) for x in p] for p in c["pos"]]), L,
+                                  np.column_stack((np.zeros(2), L)), None, Hf)
+            with np.errstate(all="ignore"):
+                return np.asarray(packing_capability_2d(Snapshots(1, [snap]), np.array([[float(x) for x in r] for r in c["sig"]]), nf,
+                                                        ppp=np.array(c["ppp"])))[0]
+        finally:
+            shutil.rmtree(tmp, ignore_errors=True)
+
+    def brute(c, rows):
+        Hf = np.array([[float(x) for x in r] for r in c["H"]]); Hi = np.linalg.inv(Hf)
+        X = np.array([[float(x) for x in p] for p in c["pos"]]); sg = np.array([[float(x) for x in r] for r in c["sig"]])
+        pp = np.array(c["ppp"], dtype=float)
+
+        def mi(v):
+            f = v @ Hi
+            return (f - np.rint(f) * pp) @ Hf
+        out = []
+        for o in range(c["N"]):
+            tot = 0.0
+            for a in range(len(rows[o])):
+                for b in range(a + 1, len(rows[o])):
+                    i, j = rows[o][a], rows[o][b]
+                    if j in rows[i] and i in rows[j]:
+                        u, v = mi(X[i] - X[o]), mi(X[j] - X[o])
+                        th = math.acos(max(-1.0, min(1.0, float(u @ v) / math.sqrt(float(u @ u) * float(v @ v)))))
+                        so, si, sj = sg[c["types"][o] - 1, c["types"][i] - 1], sg[c["types"][o] - 1, c["types"][j] - 1], sg[c["types"][i] - 1, c["types"][j] - 1]
+                        tot += abs(th - math.acos((so * so + si * si - sj * sj) / (2 * so * si)))
+            out.append(tot / len(rows[o]) if rows[o] else float("nan"))
+        return out
+    ops = []
+    for c in cases:
+        if c.get("ideal"):
+            ops.append(None)
+            continue
+        ops.append("pack2d {} {} 20 {} {} {} {} {} {}".format(
+            c["N"], c["K"], " ".join(x for r in c["H"] for x in r), " ".join(str(x) for x in c["ppp"]), " ".join(x for r in c["sig"] for x in r),
+            " ".join(str(t - 1) for t in c["types"]), " ".join(x for p in c["pos"] for x in p),
+            " ".join(str(len(r)) + "".join(" " + str(j) for j in r) for r in c["rows"])))
+    outs = iter(common.drive([o for o in ops if o]))
+    for c, op in zip(cases, ops):
+        run.hist("routine", "packing")
+        try:
+            r = real(c, c["rows"])
+        except Exception as e:
+            pf.append((c, f"packing_capability_2d raised {type(e).__name__}: {e}"))
+            continue
+        if c.get("ideal"):
+            run.count(("pack-ideal", c["sig"][0][0]), True)
+            if not np.all(np.abs(r) <= 1e-6):
+                pf.append((c, f"packing_capability_2d of touching discs (every mutual triangle has the reference side lengths) is {r.tolist()}, expected 0"))
+            continue
+        o = next(outs)
+        if o == "bad-op":
+            raise common.Infra("driver rejected pack2d")
+        t = o.split()
+        margin, dmin = Fraction(t[0]), Fraction(t[1])
+        if margin < Fraction(1, 10 ** 6) or dmin < Fraction(1, 10 ** 4):
+            run.hist("packing_skipped", "rint tie or coincident particles")
+            continue
+        model = [bits2float(x) for x in t[2:]]
+        run.count(("pack", repr(c["pos"]), repr(c["rows"])), any(len(x) >= 2 for x in c["rows"]))
+        run.hist("packing_mask", str(c["ppp"])); run.hist("packing_cell", "tilted" if c["H"][1][0] != "0" else "orthogonal")
+        bf = brute(c, c["rows"])
+        for k in range(c["N"]):
+            if not c["rows"][k]:
+                continue
+            if not common.close(float(r[k]), model[k], 1e-7, 1e-7):
+                tdis.append((c, f"packing_capability_2d[{k}] = {float(r[k])!r} vs the model's composition {model[k]!r}"))
+            if not common.close(float(r[k]), bf[k], 1e-7, 1e-7):
+                pf.append((c, f"packing_capability_2d[{k}] = {float(r[k])!r}, definition (Σ over mutual neighbour pairs |θ − θ_ref| / cn) = {bf[k]!r}"))
+                break
+            if float(r[k]) < 0:
+                pf.append((c, f"packing_capability_2d[{k}] = {float(r[k])!r} is negative"))
+                break
+        # order inside a row does not matter (σ symmetric): E_pack_perm
+        rows2 = [list(reversed(x)) for x in c["rows"]]
+        try:
+            r2 = real(c, rows2)
+            if not all(common.close(float(a), float(b), 1e-7, 1e-7) for a, b, x in zip(r, r2, c["rows"]) if x):
+                pf.append((c, "packing_capability_2d changes when the neighbours inside each row are listed in reverse order"))
+        except Exception as e:
+            pf.append((c, f"packing_capability_2d raised {type(e).__name__} on reversed rows: {e}"))
 
 
 def search(run, broken):
